@@ -263,3 +263,36 @@ def storage_physics(prop, tier, seed):
         cases.append(case)
     return dict(bounded=run_cases(sc.check_storage_physics, cases, 'optimised storage portfolios (one/two nodes, efficiency, start/end level, inflow, charging cost, no-simultaneous option, maximum holding duration, time blocks of 2-3 h, windows, asset order): physical level within [0, size] and at the end level at the end of every block, rates within rate x step length, reported fill level = physical level, holding duration respected',
                                   'hourly grids of 4-8 steps', 60 if tier == 'quick' else 400))
+
+
+@provider('C06')
+def chp_physics(prop, tier, seed):
+    rng = random.Random(seed + 41)
+    cases = []
+    for _ in range(_n(tier, 40, 300)):
+        T = rng.randint(4, 7)
+        tar = rng.choice([0, 0, 1, 2])
+        tao = 0 if tar else rng.choice([1, 2])
+        cases.append(dict(T=T, seed=rng.randint(0, 9999), ramp=rng.choice([None, 1.5, 2.]), mr=rng.choice([0, 2, 3]), md=rng.choice([0, 2]), tar=tar, tao=tao,
+                          last=(rng.choice([1., 2., 3.]) if tar else 0.), order=rng.random() < .5, heat=rng.choice([.5, 1.])))
+    return dict(bounded=run_cases(sc.check_chp_physics, cases, 'optimised CHP (power, heat, fuel nodes; ramp, runtime/downtime, initial state, last dispatch, start fuel, running consumption, heat share) in a 5-asset portfolio with positive/negative power prices: every clause of the statement evaluated on the MIP solution and on the reported fuel dispatch',
+                                  'hourly grids of 4-7 steps', 40 if tier == 'quick' else 300))
+
+
+@provider('C02')
+def reference_lp(prop, tier, seed):
+    rng = random.Random(seed + 53)
+    cases = [dict(T=rng.randint(3, 6), seed=rng.randint(0, 99999), dst=rng.random() < .4) for _ in range(_n(tier, 60, 500))]
+    return dict(bounded=run_cases(sc.check_reference_lp, cases, 'random portfolios of 3-6 assets (market, contract with spread, transport with efficiency and per-flow costs, one/two-node storage with efficiency, levels, inflow, in/out costs, multi-commodity contract, load; windows; waccs 0-0.5) on 6h grids and on daily CET grids over the DST switch (23/24 h steps): optimum = optimum of an independent scipy/HiGHS LP written from the statement; EAO dispatch feasible and optimal there',
+                                  'grids of 3-6 steps', 50 if tier == 'quick' else 400))
+
+
+@provider('C19', 'C10')
+def prices_cast(prop, tier, seed):
+    rng = random.Random(seed + 59)
+    cases = [dict(seed=rng.randint(0, 9999), start=rng.choice(['2021-01-01', '2021-03-27', '2021-10-30']), hours=rng.choice([5, 24, 49]), freq=rng.choice(['h', '4h', '15min']),
+                  tz=rng.choice([None, 'CET', 'US/Eastern'])) for _ in range(_n(tier, 16, 80))]
+    b = run_cases(sc.check_prices_to_grid, cases, 'prices_to_grid on real grids (naive / CET / US-Eastern, over DST switches): arrays pass through unchanged, frames on the grid index are re-ordered to the grid, values at other points interpolated in time',
+                  'horizons of 5-49 h', 20)
+    b['failures'] = [f for f in b['failures'] if f['name'].startswith(prop) or f.get('error')]
+    return dict(bounded=b)
